@@ -11,6 +11,9 @@ from concurrent.futures import ThreadPoolExecutor
 from .selftest import VERIF, _variants, run_benign, run_seeded, _copy, _run_check
 
 
+ALL_PROPS = sorted(f[:-3].upper() for f in os.listdir(os.path.join(VERIF, "sa", "checks")) if f.startswith("c") and f.endswith(".py"))
+
+
 def run_external(meta_path: str, repo: str):
     """A confirmed sub-agent mutant: /verif/seeded/<id>/{patch.diff, meta.json}."""
     d0 = os.path.dirname(meta_path)
@@ -21,9 +24,10 @@ def run_external(meta_path: str, repo: str):
         if r.returncode != 0:
             return {"variant": os.path.basename(d0), "status": "not-applicable", "why": r.stdout[-200:] + r.stderr[-200:]}
         res = {}
-        for prop in meta.get("check_with", [meta["property"]]):
+        for prop in ALL_PROPS:
             code, rules, tail = _run_check(prop, d)
-            res[prop] = {"exit": code, "rules": sorted(rules)}
+            if code != 0:
+                res[prop] = {"exit": code, "rules": sorted(rules), **({"tail": tail} if code == 2 else {})}
         caught = any(v["exit"] == 1 for v in res.values())
         return {"variant": os.path.basename(d0), "property": meta["property"], "status": "caught" if caught else "missed", "checks": res, "expected": meta.get("expected_detection", "")}
     finally:
